@@ -113,6 +113,41 @@ CLAIMS = {
         "(d) each error store in parseStringInplace is dominated by the condition of its class. NOT decided: SIMD block classification and the in-place copy loop across alignments."),
   note='Trusted: clang 14 front end; Python UTF-8 codec as oracle; loop-freeness of handle_unicode_codepoint (a loop would be exit 2).',
   design='5/C05'),
+ 'C14': dict(
+  category='proof',
+  technique='exhaustive evaluation of the page guard; abstract evaluation of the comparison skeleton on the all-equal path for every length up to five blocks (bounds + byte coverage); dominance rules',
+  text=("Decides: (a) in_page_32 is true only when a 32-byte load from either operand stays in its page (evaluated for every page offset), returns false under sanitizer macros, and every 32-byte load of the short path is dominated by it; "
+        "(b) for every length s = 0..160 (300 thorough) and both guard outcomes, InlinedMemcmpEq and InlinedMemcmp read both operands at equal offsets inside [0,s) and every byte of [0,s) takes part in a comparison; "
+        "(c) the linear lookup guards the comparison by size equality and the map comparator compares min(n1,n2) bytes with a length tie-break; (d) the dynamic-dispatch build forwards to the StringView lookup. "
+        "NOT decided: sign of the three-way result and mismatch localisation."),
+  note='Trusted: clang 14 front end; Intel semantics of loadu/cmpeq/movemask/and/BZHI; page size 4096.',
+  design='5/C14'),
+ 'C16': dict(
+  category='proof',
+  technique='must-dominance dataflow with alignment tokens (E2), exhaustive evaluation of AlignBuffer over all misalignments, structural pairing rules',
+  text=("Decides: (a) every amount added to the chunk size derives from SONIC_ALIGN, header sizes are multiples of 8, AlignBuffer returns an 8-aligned pointer advanced by <8 and reduces the size by exactly the bytes skipped for every misalignment; "
+        "(b) each bump is dominated by size+x<=capacity or by a successful AddChunk(ChunkSize(x)) on a fresh chunk, ChunkSize(n)=max(policy,n); (c) Realloc extends in place only the last block when growing and copies originalSize bytes; "
+        "(d) a zero-size Malloc returns before touching the pool; (e) refcount pairing of copy/move/destroy. Run for the simple and adaptive policies and the locked build in the thorough tier. "
+        "NOT decided: disjointness/stability over histories, Size/Capacity accounting."),
+  note='Trusted: clang 14 front end.',
+  design='5/C16'),
+ 'C17': dict(
+  category='proof',
+  technique='effect analysis over the whole library: static-storage census with write classification, const-API call-graph purity, lock-scope must-analysis in the locked-allocator configuration, memory orders, clang -verify compile-fail witnesses',
+  text=("Decides: (a) every static-storage variable of the library is const, atomic, thread_local or never written; (b) no function reachable from the read-only API writes to the object through const_cast or a mutable member; "
+        "(c) every Parser/SkipScanner is a function-local automatic object; (d) in the SONIC_LOCKED_ALLOCATOR configuration every access to the shared pool state and every AddChunk lies inside a lock_guard scope, Malloc is never called with the guard alive, "
+        "SpinLock acquires with >= acquire and releases with >= release on an atomic; 9 witnesses show a const document exposes no mutator. A static over-approximation: if it passes no execution of those operations can store to shared memory. "
+        "NOT decided: functional results under contention."),
+  note='Trusted: clang 14 front end (compiler-enforced const-correctness); std::lock_guard; standard-library observers.',
+  design='5/C17'),
+ 'C18': dict(
+  category='proof',
+  technique='who-may-write analysis of the numeric payload, must-dominance (E2), evaluation of sibling constructors, structural rules over operator==',
+  text=("Decides: (a) n.i64/u64/f64 are written only by GenericNode constructors that zero the node first and set a kind on every path; numeric setters destroy() and rebuild; (b) sibling constructors select the kind of their value; "
+        "(c) operator== compares basic types first, has arms for all container/string/number kinds, a number result requires GetType() equality and a 16-byte whole-node comparison, containers compare sizes before children, strings compare views, != negates. "
+        "NOT decided: reflexivity/symmetry/transitivity over all documents."),
+  note='Trusted: clang 14 front end.',
+  design='5/C18'),
 }
 NA_REASON = {
  'C19': 'Agreement with a recursive merge model over (document, text) pairs; no structural clause that is a necessary condition without mirroring the handler code (DESIGN.md section 7).',
